@@ -648,7 +648,24 @@ def optimize(*args, traverse=True, **kwargs):
     if not collections:
         return args
 
-    from dask._expr import CompositeExpr, _ExprSequence
+    from dask._expr import CompositeExpr, Expr, _ExprSequence
+
+    # Collections that are backed by an expression are optimized on the level of
+    # the expression. Their ``__dask_postpersist__`` rebuilds them from exactly
+    # the computed output keys (see persist); given the merged graph it would
+    # take arbitrary keys of that graph for its partitions.
+    expr_backed = [isinstance(getattr(a, "expr", None), Expr) for a in collections]
+    if any(expr_backed):
+        from dask._collections import new_collection
+
+        others = [a for a, is_expr in zip(collections, expr_backed) if not is_expr]
+        optimized = iter(optimize(*others, traverse=False, **kwargs) if others else ())
+        return repack(
+            [
+                new_collection(a.expr.optimize()) if is_expr else next(optimized)
+                for a, is_expr in zip(collections, expr_backed)
+            ]
+        )
 
     dsk = collections_to_expr(collections)
     collection_exprs = list(dsk.operands) if isinstance(dsk, _ExprSequence) else [dsk]
